@@ -1,5 +1,5 @@
 import JSight.ValidateA
-import JSight.Number
+import JSight.Rules
 import Driver.Common
 namespace DSemC
 open Drv
@@ -8,59 +8,11 @@ open VA
 open VN (J)
 
 
-inductive Kind | i | f | s | b | n deriving DecidableEq, Repr, Inhabited
+open Rules (Kind LitSpec litOK toCh kindOfTok numOK)
 
 instance : Inhabited (J String) := ⟨.lit "null"⟩
 instance : Inhabited (S LitSpec) := ⟨.any⟩
-
-/-- what a literal node demands -/
-structure LitSpec where
-  kind : Kind
-  nul : Bool := false
-  exact : Bool := false                 -- additionalProperties: the guessed type must be equal
-  min : Option (String × Bool) := none  -- bound, exclusive
-  max : Option (String × Bool) := none
-  minLen : Option Nat := none
-  maxLen : Option Nat := none
-  deriving Inhabited
-
 abbrev LL := LitSpec
-
-def toCh (s : String) : List Num.Ch := s.toList.map fun c =>
-  if c == '-' then .minus else if c == '+' then .plus else if c == '.' then .dot else if c == 'e' || c == 'E' then .e
-  else if c.isDigit then .d (c.toNat - 48) else .other
-
-/-- `json.Guess(value).LiteralJsonType()` on the tokens the generator uses -/
-def kindOfTok (t : String) : Option Kind :=
-  if t == "null" then some .n
-  else if t == "true" || t == "false" then some .b
-  else if t.startsWith "\"" then some .s
-  else match Num.scan (toCh t) with
-    | none => none
-    | some n =>
-      let dot := t.any (· == '.')
-      let exp := t.any (fun c => c == 'e' || c == 'E')
-      if (dot && !exp) || n.exp != 0 then some .f else some .i
-
-def numOK (tok : String) (bound : String × Bool) (isMin : Bool) : Bool :=
-  match Num.scan (toCh tok), Num.scan (toCh bound.1) with
-  | some v, some b =>
-    let c := v.cmp b
-    if isMin then (if bound.2 then c == .gt else c != .lt) else (if bound.2 then c == .lt else c != .gt)
-  | _, _ => false
-
-def litOK (l : LL) (tok : String) : Bool :=
-  match kindOfTok tok with
-  | none => false
-  | some d =>
-    if l.exact then d == l.kind
-    else if d == .n && l.nul then true                                  -- F-6: a nullable node accepts null at once
-    else if !(d == l.kind || (d == .i && l.kind == .f)) then false
-    else
-      (match l.min with | some b => numOK tok b true | none => true) &&
-      (match l.max with | some b => numOK tok b false | none => true) &&
-      (match l.minLen with | some n => decide (n ≤ tok.length - 2) | none => true) &&
-      (match l.maxLen with | some n => decide (tok.length - 2 ≤ n) | none => true)
 
 def kindOf : String → Kind
   | "i" => .i | "f" => .f | "s" => .s | "b" => .b | _ => .n
